@@ -293,8 +293,17 @@ def rule_extreq(prog, rep):
     from ..flow import _bool_facts
     g = prog.fn(r"^apollo_smith::input_value::<impl apollo_smith::DocumentBuilder<'_>>::input_value_for_type$")
     first_only = all_defs = False
+    # the lookup sits in a closure of input_value_for_type, or in a private method it was moved to
+    scope = {g.uid}
+    for _ in range(2):
+        for u in list(scope):
+            for c in prog.fns[u].live_calls():
+                h = prog.fns.get(c.uid)
+                if h is not None and h.crate == g.crate and not h.d.get("pub") and re.search(r"::input_value::", h.name):
+                    scope.add(h.uid)
+    names = tuple(prog.fns[u].name for u in scope)
     for h in prog.fns.values():
-        if h.kind == "closure" and h.name.startswith(g.name + "::"):
+        if h.uid in scope or (h.kind == "closure" and h.name.startswith(tuple(n + "::" for n in names))):
             for c in h.live_calls():
                 if "input_object_type_defs" not in " ".join(h.sym(a) for a in c.args[:1]):
                     continue
@@ -309,7 +318,8 @@ def rule_extreq(prog, rep):
         rep.instance("C32.EXTREQ", "(no restriction on extension fields is needed)")
         return
     rep.instance("C32.EXTREQ", "input_value_for_type builds an object value from the first definition of that name only (find)")
-    f = prog.fn(r"^apollo_smith::input_object::<impl apollo_smith::DocumentBuilder<'_>>::input_object_type_definition$")
+    f = prog.inline(prog.fn(r"^apollo_smith::input_object::<impl apollo_smith::DocumentBuilder<'_>>::input_object_type_definition$"),
+                    keep=r"::(input_values_def|directives|type_name|description)$")
     l_ext, agg_fields = None, ""
     for b in sorted(f.live_blocks()):
         for st in f.stmts(b):
@@ -346,6 +356,8 @@ def rule_extreq(prog, rep):
                     continue
                 if x[0] == "callbool" and x[2] and str(x[2][0]).endswith(".default_value"):
                     continue
+                if x[0] == "variant" and re.search(r"Iterator>::next@\d+$", x[1]):
+                    continue  # an earlier loop has finished / this loop has an element
                 if x[0] == "variant" and x[1].endswith(".default_value"):
                     continue
                 rest.append(k)
